@@ -200,7 +200,7 @@ func (c *client) Conn(ctx async.Context) (Conn, status.Status) {
 
 			select {
 			case <-ctx.Wait():
-				return nil, ctx.Status()
+				return nil, contextStatus(ctx)
 			case <-future.Wait():
 				return future.Result()
 			case <-timer.C:
@@ -212,7 +212,7 @@ func (c *client) Conn(ctx async.Context) (Conn, status.Status) {
 	// Otherwise, await connection or cancel
 	select {
 	case <-ctx.Wait():
-		return nil, ctx.Status()
+		return nil, contextStatus(ctx)
 	case <-future.Wait():
 		return future.Result()
 	}
@@ -352,7 +352,7 @@ func (c *client) connect1(ctx async.Context) (internalConn, status.Status) {
 	// Return if cancelled/closed
 	select {
 	case <-ctx.Wait():
-		return nil, ctx.Status()
+		return nil, contextStatus(ctx)
 	case <-c.closed_.Wait():
 		return nil, status.Closedf("mpx client closed")
 	default:
@@ -392,7 +392,7 @@ func (c *client) connectRecover(ctx async.Context) (_ internalConn, st status.St
 
 		select {
 		case <-ctx.Wait():
-			return nil, ctx.Status()
+			return nil, contextStatus(ctx)
 		case <-time.After(timeout):
 		}
 	}
